@@ -203,6 +203,20 @@ func (c *Ctx) resolveX(v ssa.Value, e *env, strip bool) (ssa.Value, *env) {
 							if ld, ok := stored.(*ssa.UnOp); ok && ld.Op == token.MUL {
 								ia, _ = ld.X.(*ssa.IndexAddr)
 							}
+							// a local copy of a table entry bound on this path (cmp, found := table[k]; … cmp.f)
+							if sv, _ := c.resolveX(stored, e, strip); sv != nil {
+								if ld, ok := sv.(*ssa.UnOp); ok && ld.Op == token.MUL {
+									if al, ok := ld.X.(*ssa.Alloc); ok && al.Parent() != nil && al.Parent().Name() == "init" {
+										if fv, ok := structLiteralFields(sv)[fieldName(fa.X.Type(), fa.Field)]; ok {
+											v, e = fv, c.ctxEnv
+											if e == nil {
+												e = newEnv()
+											}
+											continue
+										}
+									}
+								}
+							}
 						}
 					}
 					if ia != nil {
@@ -269,6 +283,22 @@ func (c *Ctx) resolveX(v ssa.Value, e *env, strip bool) (ssa.Value, *env) {
 								v = fv
 								continue
 							}
+						}
+					}
+				}
+			}
+			// field of a table entry bound on this path (a found lookup in a package-level map of structs): the
+			// value the initialiser stored into that field of the entry's literal
+			if base, be := c.resolveX(x.X, e, strip); base != x.X {
+				if ld, ok := base.(*ssa.UnOp); ok && ld.Op == token.MUL {
+					if al, ok := ld.X.(*ssa.Alloc); ok && al.Parent() != nil && al.Parent().Name() == "init" {
+						if fv, ok := structLiteralFields(base)[fieldName(x.X.Type(), x.Field)]; ok {
+							_ = be
+							v, e = fv, nil
+							if c.ctxEnv != nil {
+								e = c.ctxEnv
+							}
+							continue
 						}
 					}
 				}
